@@ -173,10 +173,11 @@ def replay(chk, behs, rng, fire_every):
                             chk.violation("C17.FireRaised", {**k, "mode": mode}, {"beh": b, "exc": o2[1]})
                         elif abs(o2[1] - float(want)) > 1e-8 * float(want):
                             chk.violation("C17.LaunchVelocity", {**k, "mode": mode}, {"beh": b, "got": o2[1], "want": float(want)})
-        epilogue(chk, b, ammo, T_, VU, vu, key0, sig, every=1 if bi % 3 == 0 else 2, start=bi)
+        epilogue(chk, b, ammo, T_, VU, vu, key0, sig, every=1 if bi % 3 == 0 else 2, start=bi,
+                 fire_ctx=(m, calc, weapon) if bi % fire_every == 0 else None)
 
 
-def epilogue(chk, b, ammo, T_, VU, vu, key0, sig, every=1, start=0):
+def epilogue(chk, b, ammo, T_, VU, vu, key0, sig, every=1, start=0, fire_ctx=None):
     """after the history: switched on, the ammunition reports the spec's final line at every temperature"""
     ammo.use_powder_sensitivity = True
     for T, res in sorted(b.get("final", []))[start % every:: every]:
@@ -189,6 +190,53 @@ def epilogue(chk, b, ammo, T_, VU, vu, key0, sig, every=1, start=0):
         elif not close(o[1], want):
             chk.violation("C17.WrongVelocity", {**key0, "Tq": T, "flag": True, "history": "/".join(sig) + "/(on)"},
                           {"beh": b, "got": o[1], "want": float(want)})
+    fin = sorted(b.get("final", []))
+    if fire_ctx is None or len(fin) < 2:
+        return
+    # atmospheres that are GIVEN NO powder temperature - and mostly no air temperature either (altitude only, nothing at all,
+    # the ICAO factory, a shot built without an atmosphere): the powder is as warm as the air of that atmosphere, and the solver
+    # launches at the spec's final line (linear in temperature: through its first and last points) read at that air temperature
+    m, calc, weapon = fire_ctx
+    U = m.Unit
+    (T1, r1), (T2, r2) = fin[0], fin[-1]
+    w1, w2 = (Fraction(r[0] * r[1], r[2]) * UA.convert("MPS", vu, 1) for r in (r1, r2))
+    makers = [("altitude_only_1500m", lambda: m.Atmo(altitude=U.Meter(1500))), ("altitude_only_below_sea", lambda: m.Atmo(altitude=U.Foot(-800))),
+              ("altitude_and_pressure", lambda: m.Atmo(U.Foot(6000), U.InHg(24.0))), ("nothing_given", lambda: m.Atmo()),
+              ("icao_at_altitude", lambda: m.Atmo.icao(U.Foot(9000))), ("air_temperature_only", lambda: m.Atmo(temperature=U.Celsius(-12.5))),
+              ("shot_without_atmosphere", None)]
+    for name, mk in makers[start % 2:: 2] if every > 1 else makers:
+        def build():
+            if mk is None:
+                sh = m.Shot(weapon=weapon, ammo=ammo)
+                return sh, sh.atmo
+            at = mk()
+            return m.Shot(weapon=weapon, ammo=ammo, atmo=at), at
+        o = impl.outcome(build)
+        chk.count(1)
+        chk.stratum("fire_implied_powder_temperature")
+        k = {**key0, "atmosphere": name, "history": "/".join(sig) + "/(on)"}
+        if o[0] != "ok":
+            chk.violation("C17.FireRaised", {**k, "mode": "implied"}, {"beh": b, "exc": o[1]})
+            continue
+        shot, at = o[1]
+        air_c = at.temperature >> U.Celsius
+        if (at.powder_temp >> U.Celsius) != air_c:
+            chk.violation("C17.PowderNotAsWarmAsTheAir", k, {"beh": b, "air_c": air_c, "powder_c": at.powder_temp >> U.Celsius})
+            continue
+        want = w1 + (w2 - w1) * (Fraction(air_c) - T1) / (T2 - T1)
+        if want <= 0:
+            continue
+
+        def launch():
+            try:
+                return calc.fire(shot, U.Foot(16), U.Foot(8)).trajectory[0].velocity >> VU
+            except m.RangeError as e:
+                return e.incomplete_trajectory[0].velocity >> VU
+        o2 = impl.outcome(launch)
+        if o2[0] != "ok":
+            chk.violation("C17.FireRaised", {**k, "mode": "implied"}, {"beh": b, "exc": o2[1]})
+        elif abs(o2[1] - float(want)) > 1e-8 * float(want):
+            chk.violation("C17.LaunchVelocity", {**k, "mode": "implied"}, {"beh": b, "got": o2[1], "want": float(want), "air_c": air_c})
 
 
 def run(chk: core.Check, replay_path=None, **_):
@@ -225,7 +273,7 @@ def run(chk: core.Check, replay_path=None, **_):
     for b in behs[:: max(1, len(behs) // 4)][:4]:
         chk.sample(b)
     chk.require_strata(["epilogue_switched_on", "fire_held_shot_after_every_operation", "display_and_preferences_perturbed", "bare_numbers", "calibration_rejected", "calibrated_faster", "calibrated_slower", "calibrated_warmer", "calibrated_colder",
-                        "query_enabled", "query_disabled", "fire_air", "fire_powder_t"])
+                        "query_enabled", "query_disabled", "fire_air", "fire_powder_t", "fire_implied_powder_temperature"])
     chk.rule.append("every behaviour of %d operations of the Powder state machine over v in %s m/s, T in %s C (TLC Gen_Powder), "
                     "temperatures/velocities passed in rotating units; non-trivial = an enabled query whose answer differs "
                     "from the stated velocity" % (maxops, vels, temps))
